@@ -8,11 +8,18 @@ import RichModel.Lemmas.StrTablesReal
 /-!
 # C06 — styles form a consistent algebra, round-trip through text, and hash consistently
 
-Property theorems only (helper lemmas live in `Lemmas/`).  `v : StyleVariant` selects the code variant
-(`Model/ColorParse.lean`): the algebra and the text theorems hold for *every* variant unless a flag is
-named in the hypotheses; the hash theorem needs the four hash repairs, the `str()` round trip of
-arbitrary reachable styles needs the `update_link` cache repair.  `Reachable v s` = `s` can be built
-with the public constructors (`Lemmas/Style.lean`).
+Property theorems only, 40 of them (helper lemmas live in `Lemmas/Style`, `StyleText`, `StyleParse`,
+`StyleSpell`, `StyleSpellNum`, `StyleSpellRgb`, `ColorParse`, `StrTablesReal`).  `v : StyleVariant`
+selects the code variant (seven flags, `Model/ColorParse.lean`; `StyleVariant.old` = rich 9.10.0 as
+found, `StyleVariant.fixed` = `.repaired` = what /repo contains since fixes c34676b, a639ea2, cf948b2,
+c566893): the algebra and the text theorems hold for *every* variant unless a flag is named in the
+hypotheses; the hash theorems (`hash_from_fields`, `eq_hash`) need the four hash repairs, the `str()`
+round trip of arbitrary reachable styles (`parse_str_roundtrip`) needs the `update_link` cache repair
+(`updateLinkDef = false`), and the unconditional left identity `add_null_left` with `add_is_merge`,
+`add_respects_eq`, `empty_style_is_identity` needs `emptyLink = false` (`add_null_left_of_link` is the
+every-variant form, for links other than `""`).  Each of the six defects has a `decide`d witness on
+`StyleVariant.old` (`old_*`, last section).  `Reachable v s` = `s` can be built with the public
+constructors (`Lemmas/Style.lean`).
 
 `T : StrTables` are the interpreter's character tables (`str.isspace`, `str.isdecimal`/`int`,
 `str.lower`, the `int()` digit limit); every text theorem holds for **all** tables satisfying
@@ -55,8 +62,9 @@ theorem add_null_left_of_link (v : StyleVariant) (a : Style) (ha : Reachable v a
     simp [add, hn, eq, Style.null, h1, h2, h3, h4, this]
 
 /-- **The null style is a left identity up to `==` for every constructible style**, once an empty
-link is stored as `None` (fix c566893, pending_fixes/C06-empty-link-is-no-link.diff).  On rich 9.10.0 as found this
-is false at `Style(link="")`: `old_empty_link_breaks_identity`. -/
+link is stored as `None` (`emptyLink = false`: fix c566893 in /repo, proposed as
+pending_fixes/C06-empty-link-is-no-link.diff).  On rich 9.10.0 as found this is false at
+`Style(link="")`: `old_empty_link_breaks_identity`. -/
 theorem add_null_left (v : StyleVariant) (hv : v.emptyLink = false) (a : Style) (ha : Reachable v a) :
     eq (add v Style.null a) a = true :=
   add_null_left_of_link v a ha (ha.linkOk hv)
